@@ -45,6 +45,14 @@ def _(self, data: Int, encoder: Obj("Encoder")):
     use(pow2_mono(blen(data - self.minimum), blen(self.maximum - self.minimum)))
     raises(EncodeError, when=False)
     assigns(encoder)
+    # X.691 13.2.4 / 11.7: with a lower bound only (lb..MAX) the value is a *semi-constrained* whole number: n - lb as a
+    # non-negative binary integer in the minimum number of octets behind a length determinant.  The code encodes n
+    # itself as an unconstrained (two's complement) whole number instead: known finding F25.
+    known("F25", py_is_int(self.root_minimum) and not py_is_int(self.root_maximum))
+    ensures(implies(not self.has_extension_marker and py_is_int(self.root_minimum) and not py_is_int(self.root_maximum)
+                    and self.root_minimum <= data and data - self.root_minimum < 256,
+                    encoder.number_of_bits == old(encoder.number_of_bits) + 16
+                    and encoder.value == old(encoder.value) * 65536 + 256 + (data - self.root_minimum)))
     ensures(implies(self.number_of_bits is not None and not self.has_extension_marker,
                     encoder.number_of_bits == old(encoder.number_of_bits) + self.number_of_bits
                     and encoder.value == old(encoder.value) * pow2(self.number_of_bits) + (data - self.minimum)))
